@@ -212,7 +212,7 @@ def g_expr(g, env, t, depth=0, pure=False):
         if r <= 5:
             g.labels.add("arith")
             return ("bin", g.pick(["+", "-", "*", "+"]), g_expr(g, env, INT, depth + 1, pure), g_expr(g, env, INT, depth + 1, pure))
-        if r == 6 and not pure:
+        if r in (6, 9) and not pure:
             fs = [f for f in g.funcs if f["ret"] == INT]
             if fs:
                 f = g.pick(fs)
@@ -348,7 +348,11 @@ def programs(draw, features=("rec", "arr")):
         params = [("p%d" % j, g.pick([INT, INT, BOOL, STR])) for j in range(draw(st.integers(0, 3)))]
         ret = g.pick([INT, INT, BOOL, STR])
         env = dict(params)
-        body = g_block(g, env, draw(st.integers(1, 4)), False, ret, 0)
+        body = []
+        ints = [p for p, t in params if t == INT]
+        if ints and g.coin(2, 3):
+            body.append(("out", ("var", ints[0])))
+        body += g_block(g, env, draw(st.integers(1, 4)), False, ret, 0)
         body.append(("return", g_expr(g, env, ret, 1)))
         g.funcs.append({"name": name, "params": params, "ret": ret, "body": body})
     env = {}
